@@ -3,6 +3,7 @@ import NibabelModel.Lemmas.PySlice
 import NibabelModel.Lemmas.C06_Final
 import NibabelModel.Lemmas.C06_NpSpecProofs
 import NibabelModel.Lemmas.C06_GenFuncs
+import NibabelModel.Lemmas.C06_GenSegs
 /-! Props/C06 — property theorems for C06 (reading a slice from file bytes equals NumPy indexing).
     Stage A (per axis), stage B (segments), stage C (whole) — see DESIGN.md §5 C06.
 
@@ -413,5 +414,73 @@ example : Gen.C06F.optimize_read_slicers
       (liftH (fun _ _ _ => .skip))
     = .ok (.tup2 (V.ofList [.slice (.int 1) (.int 5) (.int 2), .none, .int 2])
                  (V.ofList [.slice .none .none .none, .slice .none .none .none])) := by decide
+
+open Nb.Py in
+/-- **T8** the translated `slicers2segments` — three nested `for` loops with in-place mutation of the
+    segment lists and an early `return []` — computes the model's segment list for EVERY canonical
+    read-slicer tuple aligned with the shape, every offset and item size.  Together with T7 and the
+    stage-B theorems (`segments_cover`, `segments_in_extent`) the byte ranges the CURRENT source plans to
+    read are exactly the F-order enumeration of the read sub-array, inside the array's extent. -/
+theorem source_slicers2segments_eq (rs : List ReadItem) (shape : List Nat) (off isz : Nat)
+    (hc : ReadCanon rs shape) :
+    Gen.C06F.slicers2segments (V.ofList (rs.map ofRead)) (ofShape shape) (.int (off : Int)) (.int (isz : Int))
+      = .ok (ofSegs (slicers2segments rs shape off isz)) :=
+  gen_slicers2segments_eq rs shape off isz hc
+
+open Nb.Py in
+example : ReadCanon [.full, .slice 1 4 2, .newaxis, .int 1] [2, 4, 3] ∧
+    Gen.C06F.slicers2segments
+      (V.ofList [.slice .none .none .none, .slice (.int 1) (.int 4) (.int 2), .none, .int 1])
+      (ofShape [2, 4, 3]) (.int 16) (.int 4)
+    = .ok (ofSegs [⟨56, 8⟩, ⟨72, 8⟩]) := by decide
+
+open Nb.Py in
+theorem itemsWF_valid : ∀ (items : List Item) (shape : List Nat), ItemsWF items shape → ItemsValid items
+  | [], _, _ => fun s hm => by cases hm
+  | .newaxis :: rest, shape, h => by
+      have h' : ItemsWF rest shape := by cases shape <;> exact h
+      intro s hm
+      cases hm with
+      | tail _ hm => exact itemsWF_valid rest shape h' s hm
+  | .int i :: rest, [], h => by cases h
+  | .slice sl :: rest, [], h => by cases h
+  | .int i :: rest, n :: shape, h => by
+      intro s hm
+      cases hm with
+      | tail _ hm => exact itemsWF_valid rest shape h.2 s hm
+  | .slice sl :: rest, n :: shape, h => by
+      intro s hm
+      cases hm with
+      | head => exact h.1
+      | tail _ hm => exact itemsWF_valid rest shape h.2 s hm
+
+open Nb.Py in
+/-- **T9** end to end for the planning stage of the CURRENT source: for canonical items, whatever the
+    heuristic answers, the translated `optimize_read_slicers` followed by the translated
+    `slicers2segments` plans byte ranges that (a) are exactly the F-order enumeration of the read
+    sub-array and (b) lie inside the array's extent in the file. -/
+theorem source_plan_reads_subarray (h : Heuristic) (items : List Item) (shape : List Nat) (off isz : Nat)
+    (hwf : ItemsWF items shape) (rs : List ReadItem) (ps : List PostItem)
+    (hok : optimizeLoop h items shape isz true = .ok (rs, ps)) :
+    Gen.C06F.optimize_read_slicers (V.ofList (items.map ofItem)) (ofShape shape) (.int (isz : Int)) (liftH h)
+      = .ok (.tup2 (V.ofList (rs.map ofRead)) (V.ofList (ps.map ofPost))) ∧
+    Gen.C06F.slicers2segments (V.ofList (rs.map ofRead)) (ofShape shape) (.int (off : Int)) (.int (isz : Int))
+      = .ok (ofSegs (slicers2segments rs shape off isz)) ∧
+    (slicers2segments rs shape off isz).flatMap Segment.addrs
+      = (gatherF (readLists rs shape) shape).flatMap
+          (fun (q : Nat) => rangeInts ((off : Int) + (isz : Int) * (q : Int)) 1 isz) ∧
+    (∀ s ∈ slicers2segments rs shape off isz, s.length ≠ 0 →
+      (off : Int) ≤ s.offset ∧ s.offset + s.length ≤ (off : Int) + (isz : Int) * (shape.prod : Nat)) := by
+  have hc := optimizeLoop_canon h items shape isz true rs ps hwf hok
+  refine ⟨?_, source_slicers2segments_eq rs shape off isz hc, segments_cover rs shape off isz hc,
+    (segments_in_extent rs shape off isz hc).1⟩
+  have := source_optimize_read_slicers_eq h items shape isz (itemsWF_valid items shape hwf)
+  rw [hok] at this
+  exact this
+
+example : ItemsWF [.slice ⟨some 1, none, some 2⟩, .newaxis, .int 2] [5, 3] ∧
+    optimizeLoop (thresholdHeuristic 4) [.slice ⟨some 1, none, some 2⟩, .newaxis, .int 2] [5, 3] 2 true
+      = .ok ([.full, .newaxis, .int 2], [.slice ⟨some 1, some 5, some 2⟩, .slice pySliceNone]) := by
+  decide
 
 end Nb.C06
